@@ -151,13 +151,29 @@ def random_cfgs(tier, base_id, algos=("T_HOO", "HCT", "VHCT"), queries=False, se
             i += 1
             q = sorted(rnd.sample(range(n), 4)) if queries or rep % 4 == 0 else []
             cfgs.append({"id": i, "algo": algo, "kind": kind, "K": Kk, "D": D, "box": box, "n": n, "T": n, "prm": prm, "pattern": rnd.choice(["g01", "bern", "peak", "peak", "tied", "const", "flat"]), "seed": rnd.randrange(1 << 30), "queries": q, "midq": sorted(rnd.sample(range(n), 3)) if rep % 4 == 2 else [], "rtype": [None, "f32", "f64", "i64", "int", None][rep % 6]})
+    # runs that cross the refresh rounds 512 (and 1024): delta~ is recomputed when the counter *equals* a power of two
+    for algo in algos:
+        if algo not in ("HCT", "VHCT"):
+            continue
+        for T in ((530,) if tier == "quick" else (530, 1040, 600)):
+            for _ in range(50):
+                prm = draw_prm(rnd, algo)
+                t = TB.tables({"algo": algo, "n": T, "T": T, "prm": prm})
+                if t is not None and not t["amb"]:
+                    break
+            else:
+                raise C.Machinery("no representable parameter draw")
+            i += 1
+            cfgs.append({"id": i, "algo": algo, "kind": rnd.choice(["bin", "kary"]), "K": 3, "D": 1, "box": [[0.0, 1.0]], "n": T, "T": T, "prm": prm, "pattern": rnd.choice(["g01", "peak", "flat"]), "seed": rnd.randrange(1 << 30), "queries": []})
     # nu sqrt(n) exactly a power of 1/rho: the published depth bound of T-HOO is an integer -- the place where a
     # differently rounded evaluation of the same formula, or int()+1 for ceil(), goes wrong
     if "T_HOO" in algos:
         # (only exactly representable rho: for rho = 0.1 the float is 0.1000000000000000055..., the exact value of the
         # formula on that float is 1 + 2.4e-17 while the library's float evaluation gives 1.0 -- there is no sound
         # reference in that zone, it stays "ambiguous" and is not driven)
-        for (prm, n) in [({"nu": 1, "rho": 0.5}, 256), ({"nu": 1, "rho": 0.25}, 256), ({"nu": 2, "rho": 0.5}, 64), ({"nu": 0.5, "rho": 0.125}, 256), ({"nu": 0.08, "rho": 0.5}, 100)]:
+        for (prm, n) in [({"nu": 1, "rho": 0.5}, 256), ({"nu": 1, "rho": 0.25}, 256), ({"nu": 2, "rho": 0.5}, 64), ({"nu": 0.5, "rho": 0.125}, 256), ({"nu": 0.08, "rho": 0.5}, 100),
+                         # a negative depth bound (nu sqrt(n) < rho): the root is still split once at construction and nothing else ever is
+                         ({"nu": 0.02, "rho": 0.5}, 100), ({"nu": 0.03, "rho": 0.8}, 64)]:
             t = TB.tables({"algo": "T_HOO", "n": n, "T": n, "prm": prm})
             if t is None or t["amb"]:
                 raise C.Machinery("boundary parameters not representable: %s" % prm)
